@@ -7,8 +7,10 @@ package httpx
 // is TLC's (FieldRulesTrace.tla).
 //
 // A vector = source x wrapper x type (field specs, built with reflect.StructOf incl.
-// tags) x input (one value class per field + extra keys).  Numbers travel in halves
-// (n = 2*value), so 3 is 1.5.
+// tags) x input (one value class per field + extra keys).  Numbers travel as integers in
+// the unit of their field (f.u): n stands for n/u - halves (3 is 1.5) or twentieths (2 is
+// 0.1).  The form and header sources are multimaps: a key carries a list of texts (the
+// classes novals / num2 / str2 / list are lists of no, two, or several texts).
 
 import (
 	"bytes"
@@ -39,6 +41,7 @@ type vfVal struct {
 type vfField struct {
 	Nm   string   `json:"nm"`
 	K    string   `json:"k"`
+	U    int      `json:"u"` // unit of the numbers of this field (dn, lo, hi, on, input and result): n stands for n/u
 	Ptr  bool     `json:"ptr"`
 	Opt  string   `json:"opt"`
 	Dep  string   `json:"dep"`
@@ -66,6 +69,7 @@ type vfVec struct {
 	F    []vfField `json:"f"`
 	In   []vfVal   `json:"in"`
 	Xk   []string  `json:"xk"`
+	Xv   []vfVal   `json:"xv"`  // the values the extra keys carry (one per extra key)
 	Ksp  string    `json:"ksp"` // spelling of the document keys: "lower" (as in the tags) / "cap"
 	Mk   string    `json:"mk"`  // first key of the map wrapper (the second one is "k2")
 }
@@ -95,22 +99,57 @@ func vfSplit(s string) []string {
 	return strings.Split(s, ",")
 }
 
-// leaf of an input document: the value class plus the kind of the field it is meant for
+// leaf of an input document: the value class plus the kind and the unit of the field it is meant for
 type vfLeaf struct {
 	v    vfVal
 	kind string
+	u    int
 }
 
-func vfHalf(n int) string {
-	if n%2 == 0 {
-		return strconv.Itoa(n / 2)
+// vfNum writes the number n/u as an exact decimal text (u = 2: halves, u = 20: twentieths).
+func vfNum(n, u int) string {
+	if u <= 0 {
+		u = 2
+	}
+	if n%u == 0 {
+		return strconv.Itoa(n / u)
 	}
 	s := ""
 	if n < 0 {
 		s = "-"
 		n = -n
 	}
-	return fmt.Sprintf("%s%d.5", s, n/2)
+	scale, digits := 10, 1
+	for scale%u != 0 {
+		scale *= 10
+		digits++
+		if digits > 6 {
+			panic("verif: unit without a finite decimal expansion")
+		}
+	}
+	frac := fmt.Sprintf("%0*d", digits, (n%u)*(scale/u))
+	return fmt.Sprintf("%s%d.%s", s, n/u, strings.TrimRight(frac, "0"))
+}
+
+// unit of the numbers of a field (vectors written before units existed carry none: halves)
+func (f vfField) unit() int {
+	if f.U <= 0 {
+		return 2
+	}
+	return f.U
+}
+
+// the extra keys and their values (a vector without xv: every extra key carries the word q)
+func (v *vfVec) extra() map[string]vfVal {
+	m := map[string]vfVal{}
+	for j, k := range v.Xk {
+		if j < len(v.Xv) {
+			m[k] = v.Xv[j]
+		} else {
+			m[k] = vfVal{T: "str", S: "q"}
+		}
+	}
+	return m
 }
 
 func vfTagKey(src string) string {
@@ -153,7 +192,7 @@ func vfTagText(f vfField, variant int) string {
 		case vfIsList(f.K):
 			opts = append(opts, "default=["+f.Ds+"]")
 		default:
-			opts = append(opts, "default="+vfHalf(f.Dn))
+			opts = append(opts, "default="+vfNum(f.Dn, f.unit()))
 		}
 	}
 	if f.Hr {
@@ -165,11 +204,11 @@ func vfTagText(f vfField, variant int) string {
 			b.WriteByte('(')
 		}
 		if f.Hlo {
-			b.WriteString(vfHalf(f.Lo))
+			b.WriteString(vfNum(f.Lo, f.unit()))
 		}
 		b.WriteByte(':')
 		if f.Hhi {
-			b.WriteString(vfHalf(f.Hi))
+			b.WriteString(vfNum(f.Hi, f.unit()))
 		}
 		if f.Ri {
 			b.WriteByte(']')
@@ -181,7 +220,7 @@ func vfTagText(f vfField, variant int) string {
 	if f.Ho {
 		var items []string
 		for _, n := range f.On {
-			items = append(items, vfHalf(n))
+			items = append(items, vfNum(n, f.unit()))
 		}
 		items = append(items, f.Os...)
 		if f.Osyn == "list" {
@@ -314,7 +353,11 @@ func vfInner(v *vfVec, target reflect.Value, pick int) (reflect.Value, bool) {
 	return reflect.Value{}, false
 }
 
-func vfResult(fv reflect.Value) verifEv {
+// vfResult reads a field back into the value classes of the specification.  A number is
+// reported in the unit u of its field: an integer i as i*u; a float as the n for which the
+// field holds exactly what the decimal text n/u becomes in the field's kind (strconv, the
+// nearest value of that kind) - anything else is reported as "other" with its digits.
+func vfResult(fv reflect.Value, u int) verifEv {
 	mk := func(t string, n int, s string) verifEv { return verifEv{"t": t, "n": n, "s": s} }
 	if fv.Kind() == reflect.Ptr {
 		if fv.IsNil() {
@@ -339,20 +382,27 @@ func vfResult(fv reflect.Value) verifEv {
 		return mk("list", fv.Len(), strings.Join(items, ","))
 	case reflect.Int, reflect.Int8, reflect.Int16, reflect.Int32, reflect.Int64:
 		i := fv.Int()
-		if i > 1<<28 || i < -(1<<28) {
+		if i > int64(1<<29/u) || i < -int64(1<<29/u) { // the trace carries 32-bit integers
 			return mk("other", 0, "big")
 		}
-		return mk("num", int(i)*2, "")
+		return mk("num", int(i)*u, "")
 	case reflect.Uint, reflect.Uint8, reflect.Uint16, reflect.Uint32, reflect.Uint64:
-		u := fv.Uint()
-		if u > 1<<28 {
+		x := fv.Uint()
+		if x > uint64(1<<29/u) {
 			return mk("other", 0, "big")
 		}
-		return mk("num", int(u)*2, "")
+		return mk("num", int(x)*u, "")
 	case reflect.Float32, reflect.Float64:
-		d := fv.Float() * 2
-		if math.IsNaN(d) || math.Abs(d) > 1<<28 || d != math.Trunc(d) {
-			return mk("other", 0, strconv.FormatFloat(fv.Float(), 'g', -1, 64))
+		bits := 64
+		if fv.Kind() == reflect.Float32 {
+			bits = 32
+		}
+		d := math.Round(fv.Float() * float64(u))
+		if math.IsNaN(d) || math.Abs(d) > 1<<28 {
+			return mk("other", 0, strconv.FormatFloat(fv.Float(), 'g', -1, bits))
+		}
+		if held, err := strconv.ParseFloat(vfNum(int(d), u), bits); err != nil || held != fv.Float() {
+			return mk("other", 0, strconv.FormatFloat(fv.Float(), 'g', -1, bits))
 		}
 		return mk("num", int(d), "")
 	case reflect.String:
@@ -375,10 +425,10 @@ func vfDoc(v *vfVec) map[string]any {
 		if v.In[i].T == "absent" {
 			continue
 		}
-		inner[v.key(f.Nm)] = vfLeaf{v: v.In[i], kind: f.K}
+		inner[v.key(f.Nm)] = vfLeaf{v: v.In[i], kind: f.K, u: f.unit()}
 	}
-	for _, k := range v.Xk { // extra keys are not bound by the type: always spelled as they are
-		inner[k] = vfLeaf{v: vfVal{T: "str", S: "q"}, kind: "string"}
+	for k, x := range v.extra() { // extra keys are not bound by the type: always spelled as they are
+		inner[k] = vfLeaf{v: x, kind: "string", u: 2}
 	}
 	switch v.Wrap {
 	case "flat":
@@ -423,9 +473,9 @@ func vfScalarText(l vfLeaf, quoteStrings bool) string {
 	}
 	switch l.v.T {
 	case "num":
-		return vfHalf(l.v.N)
+		return vfNum(l.v.N, l.u)
 	case "numstr":
-		return q(vfHalf(l.v.N))
+		return q(vfNum(l.v.N, l.u))
 	case "str":
 		return q(l.v.S)
 	case "bool":
@@ -570,7 +620,7 @@ func vfGoValue(x any) any {
 		case "str":
 			return t.v.S
 		case "numstr":
-			return vfHalf(t.v.N)
+			return vfNum(t.v.N, t.u)
 		case "bool":
 			return t.v.N != 0
 		case "list":
@@ -589,13 +639,13 @@ func vfGoValue(x any) any {
 			return out
 		case "num":
 			n := t.v.N
-			if n%2 != 0 {
+			if n%t.u != 0 {
 				if t.kind == "float32" {
-					return float32(n) / 2
+					return float32(n) / float32(t.u)
 				}
-				return float64(n) / 2
+				return float64(n) / float64(t.u)
 			}
-			i := n / 2
+			i := n / t.u
 			switch t.kind {
 			case "int":
 				return i
@@ -650,19 +700,68 @@ func vfGoValue(x any) any {
 	panic("verif: cannot convert input")
 }
 
-// flat name -> text for the string sources
-func vfStrings(v *vfVec) map[string]string {
-	m := map[string]string{}
+// vfTexts: the list of texts a key of a parameter map carries for a value class
+func vfTexts(l vfLeaf) []string {
+	switch l.v.T {
+	case "novals": // the key is there, its list of values is empty
+		return []string{}
+	case "num2":
+		return []string{vfNum(l.v.N, l.u), vfNum(l.v.N+l.u, l.u)}
+	case "str2":
+		return []string{l.v.S, "z"}
+	case "list":
+		return append([]string{}, vfSplit(l.v.S)...)
+	}
+	return []string{vfScalarText(l, false)}
+}
+
+// flat name -> texts for the string sources (path variables: exactly one text per name)
+func vfStrings(v *vfVec) map[string][]string {
+	m := map[string][]string{}
 	for i, f := range v.F {
 		if v.In[i].T == "absent" {
 			continue
 		}
-		m[f.Nm] = vfScalarText(vfLeaf{v: v.In[i], kind: f.K}, false)
+		m[f.Nm] = vfTexts(vfLeaf{v: v.In[i], kind: f.K, u: f.unit()})
 	}
-	for _, k := range v.Xk {
-		m[k] = "q"
+	for k, x := range v.extra() {
+		m[k] = vfTexts(vfLeaf{v: x, kind: "string", u: 2})
 	}
 	return m
+}
+
+// vfEmptyKeys puts the keys without any value into a parsed form (a query string cannot spell
+// them; a filter that clears a parameter in place leaves them behind)
+func vfEmptyKeys(r *http.Request, vals map[string][]string) error {
+	var empty []string
+	for k, l := range vals {
+		if len(l) == 0 {
+			empty = append(empty, k)
+		}
+	}
+	if len(empty) == 0 {
+		return nil
+	}
+	if err := r.ParseForm(); err != nil {
+		return err
+	}
+	for _, k := range empty {
+		r.Form[k] = []string{}
+	}
+	return nil
+}
+
+func vfShow(vals map[string][]string) string {
+	ks := make([]string, 0, len(vals))
+	for k := range vals {
+		ks = append(ks, k)
+	}
+	sort.Strings(ks)
+	var parts []string
+	for _, k := range ks {
+		parts = append(parts, fmt.Sprintf("%s=%q", k, vals[k]))
+	}
+	return strings.Join(parts, " ")
 }
 
 // ---------------------------------------------------------------- one call
@@ -724,24 +823,40 @@ func vfCall(v *vfVec, id int, ptr any) (call string, input string, err error) {
 		input = fmt.Sprintf("%#v", m)
 		return "mapping.UnmarshalKey", input, mapping.UnmarshalKey(m, ptr)
 	case "form":
+		vals := vfStrings(v)
 		q := url.Values{}
-		for k, s := range vfStrings(v) {
-			q.Set(k, s)
+		for k, l := range vals {
+			for _, s := range l {
+				q.Add(k, s)
+			}
 		}
-		input = "/?" + q.Encode()
-		r := httptest.NewRequest(http.MethodGet, input, nil)
-		return "httpx.Parse(query)", input, Parse(r, ptr)
+		r := httptest.NewRequest(http.MethodGet, "/?"+q.Encode(), nil)
+		if err := vfEmptyKeys(r, vals); err != nil {
+			panic("verif: " + err.Error())
+		}
+		return "httpx.Parse(query)", vfShow(vals), Parse(r, ptr)
 	case "formpost":
+		vals := vfStrings(v)
 		q := url.Values{}
-		for k, s := range vfStrings(v) {
-			q.Set(k, s)
+		for k, l := range vals {
+			for _, s := range l {
+				q.Add(k, s)
+			}
 		}
-		input = q.Encode()
-		r := httptest.NewRequest(http.MethodPost, "/", strings.NewReader(input))
+		r := httptest.NewRequest(http.MethodPost, "/", strings.NewReader(q.Encode()))
 		r.Header.Set("Content-Type", "application/x-www-form-urlencoded")
-		return "httpx.ParseForm(post)", input, ParseForm(r, ptr)
+		if err := vfEmptyKeys(r, vals); err != nil {
+			panic("verif: " + err.Error())
+		}
+		return "httpx.ParseForm(post)", vfShow(vals), ParseForm(r, ptr)
 	case "path":
-		vars := vfStrings(v)
+		vars := map[string]string{}
+		for k, l := range vfStrings(v) {
+			if len(l) != 1 {
+				panic("verif: a path variable has exactly one text")
+			}
+			vars[k] = l[0]
+		}
 		input = fmt.Sprintf("%v", vars)
 		r := pathvar.WithVars(httptest.NewRequest(http.MethodGet, "/", nil), vars)
 		if id%2 == 0 {
@@ -751,10 +866,10 @@ func vfCall(v *vfVec, id int, ptr any) (call string, input string, err error) {
 	case "header":
 		r := httptest.NewRequest(http.MethodGet, "/", nil)
 		vars := vfStrings(v)
-		for k, s := range vars {
-			r.Header.Set(k, s)
+		for k, l := range vars { // http.Header is a map[string][]string: a key may carry no value at all
+			r.Header[http.CanonicalHeaderKey(k)] = l
 		}
-		input = fmt.Sprintf("%v", vars)
+		input = vfShow(vars)
 		if id%2 == 0 {
 			return "httpx.ParseHeaders", input, ParseHeaders(r, ptr)
 		}
@@ -793,7 +908,7 @@ func vfRead(v *vfVec, target reflect.Value, pick int) (out []verifEv, omk []stri
 	inner, ok := vfInner(v, target.Elem(), pick)
 	for i := range v.F {
 		if ok {
-			out = append(out, vfResult(inner.Field(i)))
+			out = append(out, vfResult(inner.Field(i), v.F[i].unit()))
 		} else {
 			out = append(out, verifEv{"t": "nowrapper", "n": 0, "s": ""})
 		}
